@@ -8,6 +8,7 @@ import Jesse.Gen.Sim
 import Proofs.Lemmas.Aggregate
 import Proofs.Lemmas.Num
 import Proofs.Lemmas.StoreProto
+import Proofs.Lemmas.StoreFrame
 
 namespace C07
 open Jesse Jesse.Gen Jesse.Store Spec AggLemmas
@@ -513,5 +514,34 @@ example :
   | 0, _ => rfl
   | 1, _ => rfl
   | 2, _ => rfl
+
+/-! ### no strategy writes the store
+
+The four protocol operations above are the ONLY writers of the candle store: whatever the user strategy does in any
+hook (an arbitrary `UserStrategy`), the strategy layer leaves `Engine.stores` untouched — a whole strategy step, the
+execution of an order with all its position hooks and the reactions they trigger, the pending MARKET-order queue,
+the route step of an iteration and the end of the run.  (One lemma per function of the strategy layer in
+Proofs/Lemmas/StoreFrame.lean, so the store a hook reads is the store the simulator published just before.) -/
+
+section frame
+open Jesse.Eng
+variable {M : Type} [Inhabited M] (u : UserStrategy M)
+
+theorem order_execution_never_writes_store (e : Engine M) (id : Nat) :
+    (executeOrder u e id).stores = e.stores := StoreFrame.executeOrder_ss u e id
+
+theorem strategy_step_never_writes_store (fuel : Nat) (e : Engine M) (r : Nat) :
+    (executeStrategy u fuel e r).stores = e.stores := StoreFrame.executeStrategy_ss u fuel e r
+
+theorem market_queue_never_writes_store (fuel : Nat) (e : Engine M) :
+    (executePendingMarketOrders u fuel e).stores = e.stores := StoreFrame.pending_ss u fuel e
+
+theorem routes_step_never_writes_store (fuel : Nat) (e : Engine M) (i b : Nat) :
+    (routesStep u fuel e i b).stores = e.stores := StoreFrame.routesStep_ss u fuel e i b
+
+theorem finish_run_never_writes_store (fuel : Nat) (e : Engine M) :
+    (finishRun u fuel e).stores = e.stores := StoreFrame.finishRun_ss u fuel e
+
+end frame
 
 end C07
